@@ -12,6 +12,9 @@ THEORY_EXTRA = [
     ("forall X (q(X) -> #false).", []), ("forall X$i (q(X$i) -> p(X$i)).", []), ("s <- not s.", []), ("q -> s. r -> s.", ["q/0"]),
     ("forall X Y (t(X, Y) -> p(X, Y)). forall X Y (t(X, Y) -> p(Y, X)).", []), ("forall X (q(X) -> p(X)). forall X (r(X) -> p(X)).", ["p/1"]),
     ("forall X (exists Y t(X, Y) -> p(X)).", []), ("forall X (q(X) -> p(a)).", []), ("forall X (q(X) -> exists Y p(Y)).", []),
+    # a head variable repeated in non-adjacent positions, at several sorts; three distinct arguments as the positive control
+    ("forall X Y (t(X, Y) -> t3(X, Y, X)).", []), ("forall X$i Y (t(X$i, Y) -> t3(X$i, Y, X$i)).", []), ("forall X Y (t3(X, Y, X) <- t(X, Y)).", []),
+    ("forall X Y Z (t(X, Y) and q(Z) -> t3(X, Y, Z)).", []), ("forall X Y (t(X, Y) -> t3(Y, X, Y)). forall X Y Z (t(X, Y) and q(Z) -> t3(X, Y, Z)).", []),
     ("forall X Y (q(X) and r(Y) -> p(X)). forall X (not r(X) -> #false).", []), ("forall X X$i (q(X) and q(X$i) -> p(X, X$i)).", []),
 ]
 
